@@ -24,7 +24,16 @@ def view(ex, info):
         for tag, v in info.get("args") or []:
             if tag == "elem":
                 placed.append(any(c is v for c in kids))
-    return {"els": rows, "ac": ac, "placed": placed}
+    v = {"els": rows, "ac": ac, "placed": placed}
+    if info.get("target") is not None and (info.get("live_args") or info.get("raised") is not None or ex.aux):
+        live = info.get("live_args") or []
+        kids = ex.children(info["target"])
+        v["_fp"] = {"live": len(live), "tree": info.get("tree", 0), "route": info.get("atomic"),
+                    "raised": info.get("raised") is not None,
+                    "moved": sum(1 for a in live if any(c is a for c in kids)) if info.get("raised") is None else 0,
+                    "aliased": sum(1 for a in live if len(ex.holders(a)) > 1),
+                    "taint": len(ex.taint)}
+    return v
 
 
 # ---------------------------------------------------------------- oracle
@@ -33,14 +42,28 @@ PLACING_SEQ = ("append", "extend", "iadd", "insert", "setitem", "setslice")
 
 
 def check(ex, info):
-    """the five clauses, recomputed from `.children` alone"""
-    from flatland.schema.base import Slot
+    """the five clauses, recomputed from `.children` alone — for EVERY tree the case keeps alive, after every step
+    whether the call returned or raised — then the failure-path clauses (G.check_rejected) and placed / removed"""
     fails = []
-    root = ex.root
+    for t, root in enumerate(ex.trees()):
+        check_tree(ex, info, root, t, fails)
+    fails.extend(G.check_rejected(ex, info))
+    check_call(ex, info, fails)
+    return fails
+
+
+def check_tree(ex, info, root, tree_no, fails):
+    """clause (a).  ALIASED elements — handed to a call while they were members of a live tree, so that two
+    containers list one object (`b.append(a[1])` does not take a[1] out of a); the property text does not say that
+    placing removes, and no parent pointer can designate two holders — are exempt together with what hangs below
+    them, until one container lists them again (Exec.heal): for them only the agreement of root / parents / path with
+    one another is demanded.  A REJECTED call creates no alias: G.check_rejected demands that it changes nothing."""
+    from flatland.schema.base import Slot
     op = info.get("op")
 
     def fail(clause, expected, observed):
-        fails.append({"clause": clause, "expected": expected, "observed": observed, "step": info["i"], "op": op})
+        fails.append({"clause": clause, "expected": expected, "observed": observed, "step": info["i"], "op": op,
+                      "tree": tree_no})
 
     # expected ancestors of every reachable element, from the children structure
     anc = {id(root): []}
@@ -53,7 +76,8 @@ def check(ex, info):
         for e in level:
             for c in ex.children(e):
                 if id(c) in seen:
-                    dup = True
+                    if id(c) not in ex.taint:
+                        dup = True
                     continue
                 seen.add(id(c))
                 anc[id(c)] = [e] + anc[id(e)]
@@ -68,6 +92,16 @@ def check(ex, info):
             fail("children-are-elements", "Element", type(e).__name__)
             break
         chain = ex.parents(e)
+        if ex.taint and (id(e) in ex.taint or any(id(a) in ex.taint for a in anc[id(e)])):
+            # aliased: listed by two containers; only self-consistency
+            path = list(itertools.islice(e.path, G.CHAIN_BOUND + 1))
+            top = chain[-1] if chain else e
+            want_path = list(reversed(chain)) + [e]
+            if e.root is not top or len(path) != len(want_path) or any(a is not b for a, b in zip(path, want_path)):
+                fail("root-parents-path-agree", {"root": ex.lab(top), "path": [ex.lab(x) for x in want_path]},
+                     {"root": ex.lab(e.root), "path": [ex.lab(x) for x in path]})
+                break
+            continue
         visible = [p for p in chain if not isinstance(p, Slot)]
         want = anc[id(e)]
         if len(visible) != len(want) or any(a is not b for a, b in zip(visible, want)):
@@ -101,6 +135,16 @@ def check(ex, info):
     want = order[1:]
     if len(ac) != len(want) or any(a is not b for a, b in zip(ac, want)):
         fail("all_children-breadth-first-once", [ex.lab(x) for x in want], [ex.lab(x) for x in ac])
+
+
+def check_call(ex, info, fails):
+    from flatland.schema.base import Slot, Element
+    op = info.get("op")
+    root = ex.root
+
+    def fail(clause, expected, observed):
+        fails.append({"clause": clause, "expected": expected, "observed": observed, "step": info["i"], "op": op})
+
     # detached elements (popped / deleted / replaced members waiting in the pool): C08 promises nothing about where
     # their stale parent pointer leads — only that they are unreachable — but reading them must work and root, parents
     # and path must agree with one another (a popped List member's root is its orphaned ListSlot)
@@ -130,9 +174,11 @@ def check(ex, info):
         if op["op"] == "pop" and isinstance(ret, tuple):
             r = ret[1]
             r = getattr(r, "element", r) if isinstance(r, Slot) else r
-            if id(r) in below:
+            if id(r) in below and id(r) not in ex.taint:      # (an aliased element may be listed once more)
                 fail("removed-is-unreachable", "popped element not under the container", "still reachable")
         for old in info.get("before_children") or []:
+            if id(old) in ex.taint:
+                continue        # aliased: another container below the target may list it too
             if not any(c is old for c in now) and id(old) in below:
                 fail("removed-is-unreachable", "removed element not under the container", "still reachable")
                 break
@@ -160,10 +206,12 @@ def check(ex, info):
                 if not vis or vis[0] is not target:
                     fail("placed-is-child", "argument's parent is the container", ex.lab(vis[0]) if vis else None)
                     break
-    return fails
 
 
 # ---------------------------------------------------------------- the property
+
+FAILURE_PATH_SHARE = 0.3
+
 
 def _sc(cid, k, name=None, default=None, opt=False):
     return {"cid": cid, "k": k, "name": name, "opt": opt, "policy": "subset", "minreq": False, "isa": [],
@@ -400,6 +448,9 @@ class C08(Property):
             case["ops"] = ops
             if G.has_flat(case):
                 case["nomodel"] = True
+            if rng.random() < FAILURE_PATH_SHARE and schema["k"] in G.SEQ_KINDS + G.MAP_KINDS:
+                # failure / recovery paths (oracle only): a second tree, live members as arguments, rejected calls
+                G.inject_failure_paths(rng, case, schema, any_class=True)
             yield case
 
     def _run(self, case):
@@ -421,6 +472,11 @@ class C08(Property):
         if isinstance(model_obs, dict) and model_obs.get("unsupported"):
             return None
         return super().compare(impl_obs, model_obs)
+
+    def classify(self, case, failure):
+        if G.rejected_placement_reparents(case, failure):
+            return "KF-C08-b"
+        return None
 
     def nontrivial(self, case, obs):
         if any("view_raises" in st["view"] for st in obs["steps"]):
@@ -450,6 +506,30 @@ class C08(Property):
                 t.append("raised:" + out["exc"])
             if st["view"]["placed"]:
                 t.append("element-arg:" + ("placed" if all(st["view"]["placed"]) else "not-placed"))
+            fp = st["view"].get("_fp")
+            if fp:
+                if fp["raised"]:
+                    t.append("fp:rejected:%s" % fp["route"] if fp["route"] else "fp:raised-after-effects")
+                    if fp["live"]:
+                        t.append("fp:live-arg:rejected" if fp["route"] else "fp:live-arg:raised-after-effects")
+                    else:
+                        t.append("fp:no-live-arg:rejected" if fp["route"] else "fp:no-live-arg:raised-after-effects")
+                elif fp["live"]:
+                    t.append("fp:live-arg:moved" if fp["moved"] else "fp:live-arg:ok-not-placed")
+                    if fp["aliased"]:
+                        t.append("fp:live-arg:old-container-still-lists-it")
+                if fp["tree"]:
+                    t.append("fp:target-in-second-tree")
+                if fp["taint"]:
+                    t.append("fp:aliased-elements-present")
+        if case.get("aux"):
+            t.append("fp:second-tree")
+        if G.has_failure_paths(case):
+            t.append("fp:case")
+            # a rejected call followed by a call that changes the tree again
+            rej = [i for i, st in enumerate(steps) if (st["view"].get("_fp") or {}).get("raised") and (st["view"].get("_fp") or {}).get("route")]
+            if rej and any(a["view"]["els"] != b["view"]["els"] for a, b in zip(steps[rej[0]:], steps[rej[0] + 1:])):
+                t.append("fp:rejected-then-changed")
         for o in case["ops"]:
             for part in ("s", "m"):
                 if part in o:
